@@ -42,7 +42,7 @@ def history(rng, n):
     """list of ops; objects are p1..p12 (Trace_Ownership's payload names)"""
     live, ops, nxt = [], [], 1
     for _ in range(n):
-        c = rng.randrange(12)
+        c = rng.randrange(13)
         if c <= 1 and nxt <= 12:
             ops.append(("make", nxt)); live.append(nxt); nxt += 1
         elif c == 2 and nxt <= 12:
@@ -67,6 +67,10 @@ def history(rng, n):
             ops.append(("call_cb", rng.choice([0, 1, 3])))
         elif c == 10:
             ops.append(("take_str", rng.choice([0, 4])))
+        elif c == 12:
+            # a caller-owned scratch buffer from Rust's allocator, given back by the caller (what JS and Dart do for every borrowed
+            # list or string, the EMPTY one included)
+            ops.append(("alloc_free", rng.choice([0, 0, 1, 16]), rng.choice([1, 2, 8])))
         elif c == 11 and live:
             # a Rust-owned write buffer: created (capacity 0 is what most runtimes pass), written into, read, destroyed
             ops.append(("describe", rng.choice(live), rng.choice([0, 0, 1, 16]), rng.choice([0, 1, 5])))
@@ -117,6 +121,9 @@ def c_driver(ops):
                      "size_t n_ = diplomat_buffer_write_len(w); char* b_ = diplomat_buffer_write_get_bytes(w); "
                      "if (n_ %% 1 != 0 || (n_ && b_[0] != 'o')) dv_log(\"Bad\", \"write\", \"content\"); "
                      "diplomat_buffer_write_destroy(w); dv_log(\"BorrowCall\", \"p%d\", \"\"); }\n" % (op[2], op[1], op[3], op[1]))
+        elif k == "alloc_free":
+            L.append("    { uint8_t* b = diplomat_alloc(%d, %d); if (!b || ((uintptr_t)b %% %d)) dv_log(\"Bad\", \"alloc\", \"null or misaligned\"); "
+                     "%s diplomat_free(b, %d, %d); }\n" % (op[1], op[2], op[2], ("memset(b, 3, %d);" % op[1]) if op[1] else "", op[1], op[2]))
         elif k == "peek_opt":
             L.append("    Obj_peek_opt(%s);\n" % ("o[%d]" % op[1] if op[1] else "NULL"))
         elif k == "call_cb":
